@@ -111,3 +111,56 @@ def rule_system_check(ctx, rule='R16.x'):
         elif not und:
             ctx.holds('R16.s', construct, '%s: check writes nothing' % key, m.loc(), nontrivial=False, key=key)
     ctx.floor(rule, runs, 60, 'System.check executions')
+
+
+def rule_system_iterpairs(ctx, rule='R16.i'):
+    """System.iterpairs is the third implementation of the pair enumeration (next to PairTable.iterpairs and
+    MatrixArray.iterpairs) and must agree with them: every unordered pair once by default, off-diagonal pairs only with
+    diagonal=False, every ordered pair with full=True, in type-list order, each with its own indices and labels.  The real
+    generator is executed on a System over 1..4 concrete labels."""
+    cls = ctx.prog.cls(SYSQ)
+    m = cls.find_method('iterpairs')
+    construct = SYSQ + '.iterpairs'
+    if m is None:
+        ctx.holds(rule, construct, 'System has no pair enumerator of its own', nontrivial=False)
+        return
+    bad, und, runs = [], [], 0
+    for labels in (('A',), ('A', 'B'), ('A', 'B', 'C'), ('A', 'B', 'C', 'D')):
+        n = len(labels)
+        want = {(False, True): [(i, j) for i in range(n) for j in range(n) if i <= j],
+                (False, False): [(i, j) for i in range(n) for j in range(n) if i < j],
+                (True, True): [(i, j) for i in range(n) for j in range(n)],
+                (True, False): [(i, j) for i in range(n) for j in range(n)],
+                None: [(i, j) for i in range(n) for j in range(n) if i <= j]}
+        for flags, pairs in want.items():
+            try:
+                ip = Interp(ctx.prog)
+                o = ip.construct(cls, [Seq([label(x) for x in labels], 'list')], {})
+                kw = {} if flags is None else {'full': Const(flags[0]), 'diagonal': Const(flags[1])}
+                res = ip.call(ip.find_method(o, 'iterpairs'), [], kw)
+                if not isinstance(res, Seq):
+                    raise Unsupported('iterpairs returns %r' % (res,))
+                got = []
+                for item in res.items:
+                    ij, tt = item.items[0], item.items[1]
+                    i, j = (int(x.t.const_value()) for x in ij.items)
+                    got.append((i, j))
+                    if tuple(getattr(x, 'v', None) for x in tt.items) != (labels[i], labels[j]):
+                        bad.append('%d types, %s: labels %s yielded with indices (%d,%d)' % (
+                            n, flags, tuple(getattr(x, 'v', x) for x in tt.items), i, j))
+                runs += 1
+            except (Unsupported, NeedDecision) as e:
+                und.append(str(e))
+                continue
+            except Raised as e:
+                bad.append('%d types, flags %s: raises %s' % (n, flags, e.exc))
+                continue
+            if got != pairs:
+                tag = 'default' if flags is None else 'full=%s,diagonal=%s' % flags
+                bad.append('%d types, %s: visits %s, the table enumerators visit %s' % (n, tag, got[:8], pairs[:8]))
+    if bad:
+        ctx.violation(rule, construct, 'iteration', '; '.join(sorted(set(bad))[:3]), m.loc())
+    elif und:
+        ctx.undecided(rule, construct, und[0], m.loc())
+    else:
+        ctx.holds(rule, construct, 'agrees with the table enumerators for every flag combination on 1..4 types (%d executions)' % runs, m.loc())
